@@ -123,7 +123,7 @@ func applyPatches(ov map[string]string, dir string, patches []string) {
 		}
 		files := map[string]bool{}
 		for _, l := range strings.Split(string(b), "\n") {
-			for _, pre := range []string{"--- a/", "+++ b/"} {
+			for _, pre := range []string{"--- a/", "+++ b/", "--- b/", "+++ a/"} {
 				if strings.HasPrefix(l, pre) {
 					f := strings.TrimSpace(strings.TrimPrefix(l, pre))
 					if i := strings.IndexByte(f, '\t'); i >= 0 {
@@ -223,6 +223,7 @@ func runCheck(id, tier string, replay string, patches []string, quiet bool) int 
 		args = append(args, "-budget", b)
 	}
 	if replay != "" {
+		replay, _ = filepath.Abs(replay)
 		args = append(args, "-replay", replay)
 	}
 	if os.Getenv("VERIF_VERBOSE") != "" {
